@@ -146,8 +146,11 @@ where
         })
     };
     let result: Result<T, String> = match env.session {
-        None => {
-            end_session();
+        None | Some(u64::MAX) => {
+            // (u64::MAX: a detached one-off process - a dry run - that leaves a running session alone)
+            if env.session.is_none() {
+                end_session();
+            }
             let (done_tx, done_rx) = std::sync::mpsc::channel::<()>();
             let handle = std::thread::Builder::new()
                 .name("simproc".into())
